@@ -1,4 +1,5 @@
 import HdVerif.Proofs.TilingHelpers
+import HdVerif.Proofs.TilingHelpersTie
 /-! # C12  All tiling helpers describe one and the same tiling
 
 Property theorems only (helper lemmas: `Proofs/TilingGrid.lean`, `Proofs/TilingCut.lean`, `Proofs/TilingFull.lean`,
@@ -235,6 +236,46 @@ theorem tile_array_refused {α} (z : α) (M : Img α) (R C ro co tr tc : Int) (h
     grind
   rw [this]
 
+/-! ## Bridges: the hand-written enumerations use exactly the expressions of the current source -/
+
+/-- **Bridge (offsets and positions, T7g).**  The model's `tileOffsets` / `tilePositions` run the slow meshgrid range outside and the
+fast one inside and report, per pair, the values of the REGENERATED `tileOffsetOf` (multipliers of
+`tile_indices * [columns, rows]`, the `+= 1` shift; positions from the 0-based pair). -/
+theorem bridge_offset_expression (tr tc R C : Int) (g : Geo) :
+    (∀ l, tileOffsets tr tc R C = .ok l →
+      ∃ nCol nRow nFast nSlow, tilesPerAxisFloor tr tc R C = .ok (nCol, nRow) ∧ tileGridRanges nCol nRow = .ok (nFast, nSlow) ∧
+        l = (iota nSlow).flatMap (fun i => (iota nFast).filterMap (fun j =>
+          match tileOffsetOf j i tr tc with
+          | .ok (_, _, a, b) => some (a, b)
+          | .error _ => none))) ∧
+    (∀ l, tilePositions tr tc R C g = .ok l →
+      ∃ nCol nRow nFast nSlow, tilesPerAxisFloor tr tc R C = .ok (nCol, nRow) ∧ tileGridRanges nCol nRow = .ok (nFast, nSlow) ∧
+        l = (iota nSlow).flatMap (fun i => (iota nFast).filterMap (fun j =>
+          match tileOffsetOf j i tr tc with
+          | .ok (p0, p1, a, b) => some ((a, b), pixToRef g p0 p1)
+          | .error _ => none))) :=
+  ⟨fun l h => tileOffsets_uses_expr tr tc R C l h, fun l h => tilePositions_uses_expr tr tc R C g l h⟩
+
+/-- **Bridge (focal plane and channel ranges, T7h).**  The plane indices of the model's `iterTiledFull` are the regenerated
+`range(1, num_focal_planes + 1)`; `channelNumbers n` is the regenerated range of optical path numbers and of segment numbers. -/
+theorem bridge_plane_and_channel_ranges (channels : List (Option Int)) (planes n : Int) :
+    (∃ a b, focalPlaneRange planes = .ok (a, b) ∧
+      channels.flatMap (fun ch => (iota planes).map (fun p => (ch, p + 1))) =
+        channels.flatMap (fun ch => (pyRange1 a b).map (fun p => (ch, p)))) ∧
+    (∃ a b, opticalPathRange n = .ok (a, b) ∧ channelNumbers n = (pyRange1 a b).map some) ∧
+    (∃ a b, segmentRange n = .ok (a, b) ∧ channelNumbers n = (pyRange1 a b).map some) :=
+  ⟨iterTiledFull_pairs_use_range channels planes, (plane_and_channel_ranges planes n).2⟩
+
+/-- **Bridge (tile indices, T7i).**  The model's `tileIndexEnum` runs the regenerated tile-row range outside, the tile-column range
+inside, and yields the regenerated pair `tileIndexElt r c`. -/
+theorem bridge_tile_index_enumeration (R C tr tc : Int) (l : List (Int × Int)) (h : tileIndexEnum R C tr tc = .ok l) :
+    ∃ tpc tpr a b c d, tilesPerAxisCeil R C tr tc = .ok (tpc, tpr) ∧ tileIndexRanges tpc tpr = .ok (a, b, c, d) ∧
+      l = (pyRange1 a b).flatMap (fun r => (pyRange1 c d).filterMap (fun c' =>
+        match tileIndexElt r c' with
+        | .ok p => some p
+        | .error _ => none)) :=
+  tileIndexEnum_uses_expr R C tr tc l h
+
 end HdVerif.C12
 
 /-! ## Non-vacuity -/
@@ -270,5 +311,8 @@ example : framePosition [some 1] 1 2 2 4 6 ⟨0, 0, 0, 1, 0, 0, 0, 1, 0, 1, 1⟩
   rw [h]
   simp only [pixToRef]
   norm_num
+
+example : tileOffsetOf 1 2 2 3 = .ok (3, 4, 4, 5) ∧ tileIndexElt 2 1 = .ok (1, 2) ∧ focalPlaneRange 3 = .ok (1, 4) := by decide
+example : ∃ l, tileOffsets 2 3 5 4 = .ok l ∧ l.length = 6 := ⟨_, rfl, by decide⟩
 
 end HdVerif.Examples.C12
